@@ -6,6 +6,6 @@ src = subprocess.run(["git", "-C", "/repo", "show", f"HEAD:{file}"], capture_out
 assert src.count(old) == 1, f"OLD occurs {src.count(old)} times"
 dst = src.replace(old, new)
 diff = "".join(difflib.unified_diff(src.splitlines(True), dst.splitlines(True), f"a/{file}", f"b/{file}"))
-out = os.path.join(os.path.dirname(os.path.dirname(os.path.abspath(__file__))), "selftest", "mutants", name + ".patch")
+out = os.path.join(os.path.dirname(os.path.dirname(os.path.abspath(__file__))), "selftest", os.environ.get("MUT_DIR", "mutants"), name + ".patch")
 open(out, "w").write(diff)
 print(out)
